@@ -60,29 +60,38 @@ def run(ctx):
     jobs.append(("Aggregator_thr.cfg", "thrarg2", True, ["thr_late/sync/fc", "thr_early/sync/cf"], ["ExternalResolve", "Drain"],
                  None,
                  {"NS": 2, "WithArg": "TRUE", "SrcKinds": ARGK, "MaxAcc": 4}))
-    # narrow configurations for 4 and 5 sources: synchronous finite sources, and one-step asynchronous ones
-    jobs.append(("Aggregator_seq.cfg", "seq4", False, SEQ_MODES[:2], [],
+    # narrow configurations for 4 and 5 sources (two-step scripts, cut off by the access bound)
+    jobs.append(("Aggregator_seq.cfg", "seq4", False, SEQ_MODES[:2], ["ExternalResolve"],
                  None,
-                 {"NS": 4, "SrcKinds": '{"yield", "throw", "return"}', "MaxSteps": 2, "MaxAcc": 6, "Classes": '{"b"}',
-                  "EarlyDestroy": "FALSE"}))
-    jobs.append(("Aggregator_seq.cfg", "seq5", False, SEQ_MODES[:2], [],
+                 {"NS": 4, "MaxSteps": 2, "MaxAcc": 5, "EarlyDestroy": "FALSE"}))
+    jobs.append(("Aggregator_seq.cfg", "seq5", False, SEQ_MODES[1:3], ["ExternalResolve"],
                  None,
-                 {"NS": 5, "SrcKinds": '{"yield", "return"}', "MaxSteps": 2, "MaxAcc": 7, "Classes": '{"n"}',
+                 {"NS": 5, "SrcKinds": '{"yield", "apend", "return"}', "MaxSteps": 2, "MaxAcc": 4, "Classes": '{"n"}',
                   "EarlyDestroy": "FALSE"}))
-    for (cfg, tag, witharg, modes, extra, cq, ct) in jobs:
+    for j, (cfg, tag, witharg, modes, extra, cq, ct) in enumerate(jobs):
         consts = cq if q else ct
         if consts is None:
             continue
         ns = consts["NS"]
         consts = {k: str(v) for k, v in consts.items()}
         if q:
-            modes = modes[:2]
+            # two of the job's modes, rotating over the jobs so that every implementation occurs in the quick tier
+            modes = [modes[j % len(modes)], modes[(j + 1) % len(modes)]]
 
         def hdr(k, st0, witharg=witharg, modes=modes, ns=ns):
             return {"witharg": witharg, "ns": ns, "modes": modes}
         graph_replay(ctx, "Aggregator", "Aggregator", cfg, tag, rp, proj, header_fn=hdr, merge_re=MERGE,
                      must_take=(ACTIONS + extra) if ns else ["Access", "AggStart", "AggInit", "AggEnd", "Destroy"],
                      constants=consts, replay_timeout=3000, tlc_kw={"workers": 4})
+    if not q:
+        # 4 and 5 sources with the full alphabet: random behaviours of the specification alone (all invariants)
+        for ns in (4, 5):
+            path = os.path.join(vlib.BUILD, "%s_sim%d.cfg" % (ctx.prop, ns))
+            vlib.write_cfg(path, open(os.path.join(vlib.VERIF, "spec/Aggregator/Aggregator_thr.cfg")).read(),
+                           {"NS": str(ns), "MaxAcc": "8"})
+            res = ctx.tlc("Aggregator", "Aggregator", path, "sim%d" % ns, workers=4, simulate="num=30000", depth=200)
+            if res.violation:
+                ctx.tlc_violation(res, "Aggregator:sim%d" % ns)
     ctx.assume("values are (source, sequence number) pairs encoded as 100*s+j; access i passes 100+i; operation k completes with k")
     ctx.assume("controller::_count lives in the aggregate's coroutine frame and is not observable from outside: it is bound through "
                "behaviour (end reported / access hanging / drain blocking) and the observable queue content, not by direct comparison")
